@@ -27,14 +27,16 @@ def plan(tier, seed):
     else:
         dspecs, fspecs = [(1, 3), (2, 3), (3, 2), (4, 2), (5, 1), (6, 0)], [(1, 2), (2, 1), (3, 1), (4, 0)]
     chunks = sweep.shape_chunks(dspecs, per_chunk=16, kind='delete')
-    chunks += sweep.shape_chunks(fspecs, per_chunk=2, kind='files')
+    chunks += sweep.shape_chunks(fspecs, per_chunk=2, kind='files', plen=3 if tier == 'quick' else 4)
     return {
         'chunks': chunks,
         'rule': 'delete: every hierarchy over n tokens (<= u unary) x every subset of token positions being '
                 'punctuation (punctuation_delete, quiet on/off), traces (ptb_delete_traces x %d parameter sets), '
                 'each single token (delete_terminal), filter_by_length x {lt,gt,eq} x 0..n+1; files: every '
                 'hierarchy x terminal files with <= 2 entries over index in {-1,0,..,n+2} (incl. duplicates and '
-                'foreign sentence ids) x POS column x quiet for insert_terminals / substitute_terminals. '
+                'foreign sentence ids) x POS column x quiet for insert_terminals / substitute_terminals; programs: every '
+                'sequence of 2..L operations from 7 token-editing operations applied to the same tree object, '
+                'composed reference. '
                 'non-trivial = distinct cases in which the reference edits at least one token' % len(TRACE_PARAMS),
         'bound': 'delete: ' + ', '.join('n=%d:u<=%d' % s for s in dspecs) + '; files: ' + ', '.join('n=%d:u<=%d' % s for s in fspecs),
         'exhaustive': True,
@@ -225,6 +227,112 @@ def check_filter(mtj):
     return out
 
 
+def ref_insert(mt, entries):
+    """entries: list of (sid, idx) in file order; word new<k>, POS NP<k>.  Returns (MT, number inserted)."""
+    mine = [(idx, k) for k, (sid, idx) in enumerate(entries) if sid == mt.sid]
+    seq = [('old', i + 1) for i in range(mt.n())]
+    done = 0
+    for idx, k in sorted(mine):
+        if 1 <= idx <= len(seq) + 1:
+            seq.insert(idx - 1, ('new', k))
+            done += 1
+    newpos = {}
+    toks = []
+    for i, (kind, v) in enumerate(seq):
+        if kind == 'old':
+            newpos[v] = i + 1
+            toks.append(mt.toks[v - 1])
+        else:
+            toks.append({'word': 'new%d' % v, 'pos': 'NP%d' % v, 'lemma': '--', 'morph': '--', 'edge': '--'})
+
+    def rec(nd):
+        if isinstance(nd, int):
+            return newpos[nd]
+        return (nd[0], nd[1], tuple(rec(k) for k in nd[2]))
+    root = rec(mt.root)
+    root = (root[0], root[1], root[2] + tuple(i + 1 for i, (kind, v) in enumerate(seq) if kind == 'new'))
+    return model.MT(mt.sid, toks, root), done
+
+
+def ref_substitute(mt, entries, with_pos):
+    toks = [dict(tk) for tk in mt.toks]
+    done = 0
+    for k, (sid, idx) in enumerate(entries):
+        if sid == mt.sid and 1 <= idx <= mt.n():
+            toks[idx - 1]['word'] = 'new%d' % k
+            if with_pos:
+                toks[idx - 1]['pos'] = 'NP%d' % k
+            done += 1
+    return model.MT(mt.sid, toks, mt.root), done
+
+
+# ------------------------------------------------------------------ programs of token-editing operations
+PROGRAM_OPS = ['punct', 'ins_first', 'ins_last', 'ins_mid', 'del_first', 'del_last', 'subst']
+
+
+def apply_program_op(op, t, m):
+    """Applies one operation to the live tree t (library) and to the model m (reference).
+    Returns (returned tree, new model)."""
+    n = m.n()
+    if op == 'punct':
+        pos = [i + 1 for i, tk in enumerate(m.toks) if tk['word'] in PUNCT]
+        with contextlib.redirect_stdout(io.StringIO()), contextlib.redirect_stderr(io.StringIO()):
+            r = transform.punctuation_delete(t, quiet=True)
+        return r, (m if len(pos) == n else ref_delete(m, pos))
+    if op.startswith('ins_'):
+        idx = {'ins_first': 1, 'ins_last': n + 1, 'ins_mid': max(1, (n + 1) // 2 + 1)}[op]
+        entries = [(m.sid, idx), (m.sid + 1, 1)]
+        path = write_terminal_file(entries, True)
+        try:
+            with contextlib.redirect_stdout(io.StringIO()):
+                r = transform.insert_terminals(t, terminalfile=path, quiet=True)
+        finally:
+            os.unlink(path)
+        m2, _ = ref_insert(m, entries)
+        # inserted tokens get fresh names so that later insertions stay distinguishable
+        return r, m2
+    if op in ('del_first', 'del_last'):
+        if n < 2:
+            return t, m
+        k = 1 if op == 'del_first' else n
+        leaf = [l for l in raw_leaves(t) if l.data['num'] == k][0]
+        T.delete_terminal(t, leaf)
+        return t, ref_delete(m, [k])
+    if op == 'subst':
+        entries = [(m.sid, 1), (m.sid, n + 1)]
+        path = write_terminal_file(entries, True)
+        try:
+            with contextlib.redirect_stdout(io.StringIO()):
+                r = transform.substitute_terminals(t, terminalfile=path, quiet=True)
+        finally:
+            os.unlink(path)
+        return r, ref_substitute(m, entries, True)[0]
+    raise KeyError(op)
+
+
+def check_program(mtj, program):
+    mt = model.MT.from_json(mtj)
+    case = {'op': 'program', 'mt': mtj, 'program': program}
+    out = []
+    t = build(mt)
+    m = mt
+    for i, op in enumerate(program):
+        try:
+            r, m = apply_program_op(op, t, m)
+        except Exception as e:
+            out.append({'kind': 'exception', 'where': 'program:' + op, 'case': case,
+                        'detail': '%s: %s at step %d of %r [input %s]' % (type(e).__name__, e, i + 1, program, model.mt_str(mt.root, mt.toks)),
+                        'what': 'token-editing operation raised after earlier edits of the same tree'})
+            return out
+        before = len(out)
+        compare('program-mismatch', 'program:' + op, case, mt, m, r, t, out=out)
+        if len(out) > before:
+            out[-1]['detail'] += ' (step %d of %r)' % (i + 1, program)
+            return out
+        t = r
+    return out
+
+
 # ------------------------------------------------------------------ terminal files
 def file_entries(n):
     idx = list(range(-1, n + 3))
@@ -347,6 +455,8 @@ def check_substitute(mtj, entries, with_pos, quiet_flag):
 def check_case(case):
     with quiet():
         op = case['op']
+        if op == 'program':
+            return check_program(case['mt'], case['program'])
         if op == 'punctuation_delete':
             return check_punct(case['mt'], case['quiet'])[0]
         if op == 'ptb_delete_traces':
@@ -407,6 +517,13 @@ def run_chunk(chunk):
                         for wp in (False, True):
                             vs, nt = check_substitute(j, entries, wp, q)
                             take(vs, nt, ('s', model.shape_str(sh), tuple(entries), q, wp))
-                res.sample({'tree': model.mt_str(mt.root, mt.toks), 'terminal_file_entries(sid,index)': entries_list[-3],
-                            'ops': ['insert_terminals', 'substitute_terminals']})
+                # programs: every sequence of 2..L token-editing operations on the same tree object
+                words = ['w1', ',', 'w3', ';', 'w5'][:n]
+                pmt = model.MT(1, model.mk_tokens(n, words=words), mt.root)
+                pj = pmt.to_json()
+                for L in range(2, chunk.get('plen', 2) + 1):
+                    for program in itertools.product(PROGRAM_OPS, repeat=L):
+                        take(check_program(pj, list(program)), True, ('prog', model.shape_str(sh), program))
+                res.sample({'tree': model.mt_str(pmt.root, pmt.toks), 'terminal_file_entries(sid,index)': entries_list[-3],
+                            'ops': ['insert_terminals', 'substitute_terminals'], 'programs_of': PROGRAM_OPS})
     return res
